@@ -1,7 +1,7 @@
 package log
 
 //verif:witness H_C14_retention end
-//verif:bound C14 quick directory of 1..2 entries, each one of: own-pattern name 'a.'+14 arbitrary bytes, 'a.'+3 arbitrary bytes, the sibling appender's 'a.wf.'+14 digits, an arbitrary 3-byte name, a sub-directory with an own-pattern name; age an arbitrary integer 0..10^7 s, max age an arbitrary integer 1..720 h, one arbitrary (frozen) clock reading
+//verif:bound C14 quick directory of 1..2 entries, each one of: own-pattern name 'a.'+14 arbitrary bytes, 'a.'+3 arbitrary bytes, the sibling appender's 'a.wf.'+14 digits, 'a'+one arbitrary separator byte+14 digits, an arbitrary 3-byte name, a sub-directory with an own-pattern name; age an arbitrary integer 0..10^7 s, max age an arbitrary integer 1..720 h (LIA) or one of the constants 1, 2, 24, 596, 597, 719, 720 evaluated with the code's machine arithmetic, one arbitrary (frozen) clock reading
 //verif:bound C14 thorough directory of 1..3 entries, otherwise as quick
 //verif:assume C14 entry names contain no '/' and no NUL and are pairwise distinct (so that a counterexample can be created on a real file system)
 //verif:assume C14 ages within 5 s of the cut-off are outside the claim (natively the clock moves between file creation and the scan)
@@ -31,13 +31,22 @@ func H_C14_retention() {
 		maxE = 3
 	}
 	ne := 1 + vChoose("entries", maxE)
-	maxAge := vIntLIA("maxAge", 1, 720)
+	// max age: an arbitrary integer 1..720 (mathematical-integer encoding), or one of the
+	// boundary constants computed with the code's own machine arithmetic (int32 field, Duration)
+	var maxAge int64
+	if k := vChoose("maxAgeKind", 8); k == 0 {
+		maxAge = vIntLIA("maxAge", 1, 720)
+	} else {
+		maxAge = [7]int64{1, 2, 24, 596, 597, 719, 720}[k-1]
+	}
 	names := make([]string, ne)
 	ages := make([]int64, ne)
 	dirs := make([]bool, ne)
 	for i := 0; i < ne; i++ {
 		var name string
-		switch vChoose("kind", 5) {
+		switch vChoose("kind", 6) {
+		case 5:
+			name = "a" + vString("sep", 1) + "20250601120000" // own pattern except for an arbitrary separator byte
 		case 0:
 			name = "a." + vString("ts", 14)
 		case 1:
